@@ -1,12 +1,13 @@
 #!/usr/bin/env python3
-"""Sensitivity runs: apply one source mutation to /repo, run a check, revert.
+"""Sensitivity runs: apply one source mutation to a scratch worktree of /repo (under /tmp, removed
+afterwards; /repo itself is never modified), run a check against it through tools/altcheck.sh.
 
   tools/mutant.py CNN [name ...] [--tier quick]      (mutants/CNN.json lists the mutations)
 
 A mutation is {name, file, old, new[, count]}: `old` must occur exactly `count` (default 1)
-times in the file. The working tree of /repo is restored afterwards in every case.
+times in the file.
 """
-import json, os, subprocess, sys, time
+import json, os, subprocess, sys, time, tempfile, shutil
 ROOT = os.path.dirname(os.path.dirname(os.path.abspath(__file__)))
 def main():
     args = [a for a in sys.argv[1:] if not a.startswith("--")]
@@ -18,10 +19,23 @@ def main():
     names = set(args[1:])
     muts = json.load(open(os.path.join(ROOT, "mutants", prop + ".json")))
     results = []
+    wt = tempfile.mkdtemp(prefix="verif-mut-", dir="/tmp")
+    os.rmdir(wt)
+    subprocess.run(["git", "-C", "/repo", "worktree", "add", "--detach", "-q", wt, "HEAD"], check=True)
+    try:
+        run_all(muts, names, prop, tier, wt, results)
+    finally:
+        subprocess.run(["git", "-C", "/repo", "worktree", "remove", "--force", wt])
+        shutil.rmtree(wt, ignore_errors=True)
+    with open(os.path.join(ROOT, "mutants", "RESULTS.md"), "a") as fh:
+        for n, v, dt in results:
+            fh.write("| %s | %s | %s | %s | %.1fs |\n" % (prop, n, tier, v, dt))
+
+def run_all(muts, names, prop, tier, wt, results):
     for m in muts:
         if names and m["name"] not in names:
             continue
-        path = os.path.join("/repo", m["file"])
+        path = os.path.join(wt, m["file"])
         src = open(path).read()
         cnt = src.count(m["old"])
         if cnt != m.get("count", 1):
@@ -31,7 +45,7 @@ def main():
         try:
             open(path, "w").write(src.replace(m["old"], m["new"]))
             t0 = time.time()
-            p = subprocess.run([os.path.join(ROOT, "check"), prop, "--tier", tier], cwd=ROOT, stdout=subprocess.PIPE, stderr=subprocess.STDOUT, text=True)
+            p = subprocess.run([os.path.join(ROOT, "tools", "altcheck.sh"), wt, prop, tier], cwd=ROOT, stdout=subprocess.PIPE, stderr=subprocess.STDOUT, text=True)
             dt = time.time() - t0
         finally:
             open(path, "w").write(src)
@@ -41,11 +55,6 @@ def main():
         if p.returncode == 2:
             print(p.stdout[-1500:])
         results.append((m["name"], verdict, dt))
-    st = subprocess.run(["git", "-C", "/repo", "status", "--short"], stdout=subprocess.PIPE, text=True).stdout
-    if st.strip():
-        print("WARNING: /repo not clean after mutation runs:\n" + st)
-    with open(os.path.join(ROOT, "mutants", "RESULTS.md"), "a") as fh:
-        for n, v, dt in results:
-            fh.write("| %s | %s | %s | %s | %.1fs |\n" % (prop, n, tier, v, dt))
+
 if __name__ == "__main__":
     main()
